@@ -183,8 +183,21 @@ def case_cls(c, sig):
             f"|{c['method']}{'' if c.get('epsrel', EPSREL) == EPSREL else '@loose-epsrel'}|{sig}")
 
 
-def tolerance(scale, epsrel=EPSREL):
-    return CTOL * epsrel * (1.0 + scale)
+QFLOOR = 5e-9               # see quad_floor()
+
+
+def quad_floor(sd):
+    """Sub-ohmic spectral densities at T > 0 make the library's eta integrand singular at w = 0 (~ w^(zeta-1)); scipy's
+    QAGS then stops at a relative accuracy of about 2e-7 of eta(t) whatever epsrel is requested (sometimes with an
+    IntegrationWarning 'roundoff error is detected in the extrapolation table', sometimes silently).  Measured against two
+    independent quadratures (own w = u^2 substitution, composite Gauss-Legendre): eta(0.1) off by 1.7e-7 relative at
+    epsrel 1e-9 .. 1e-12, states off by up to 3.2e-8 (finite memory: the errors of the eta differences do not telescope).
+    For these members the requested tolerance is replaced by epsrel + QFLOOR in the bound."""
+    return QFLOOR if (sd["zeta"] < 1.0 and sd["temp"] > 0.0) else 0.0
+
+
+def tolerance(scale, epsrel=EPSREL, floor=0.0):
+    return CTOL * (epsrel + floor) * (1.0 + scale)
 
 
 def run_commuting(c, bath=None):
@@ -209,7 +222,7 @@ def run_commuting(c, bath=None):
     omax = float(np.abs(np.linalg.eigvalsh(o)).max())
     res["scale"] = 4.0 * omax ** 2 * max(abs(e) for e in full)
     epsrel = c.get("epsrel", EPSREL)
-    res["tol"] = tolerance(res["scale"], epsrel)
+    res["tol"] = tolerance(res["scale"], epsrel, quad_floor(sd))
     try:
         if bath is None:
             bath = oq.Bath(o, C.lib_correlations(sd))
@@ -483,7 +496,9 @@ def run(tier, seed):
         "samples": samples,
         "exhaustive": True,
         "max_dev": maxdev, "max_dev_tempo": maxdev_by_method["tempo"], "max_dev_pt_tempo": maxdev_by_method["pt"],
-        "tolerance": tolerance(0.0), "tolerance_rule": f"{CTOL}*epsrel*(1+4|o|^2|eta(t_n)|), epsrel={EPSREL}",
+        "tolerance": tolerance(0.0),
+        "tolerance_rule": f"{CTOL}*(epsrel+floor)*(1+4|o|^2|eta(t_n)|), epsrel={EPSREL}; floor={QFLOOR} for sub-ohmic T>0 members "
+                          "(library quadrature cannot do better there and warns), else 0",
         "max_dev_over_tol": maxratio,
         "loose_leg": loose,
         "min_environment_influence": min_infl,
